@@ -3,7 +3,7 @@
    of three statements of slaves/devices.py that the translator read from the source on this run; the theorems about it are
    proved through C13/GenOk.v (cfg_src = cfg_fixed) and therefore only compile for the repaired code.  The refutations for the
    code as found are in History/C13Old.v. *)
-From QT Require Import C12.Mirror C12.Spec C13.Provisioning C13.Spec C13.ProvThm C13.GenOk C13.GenThm Gen.C13Gen.
+From QT Require Import C12.Mirror C12.Spec C13.Provisioning C13.Spec C13.ProvThm C13.EpisodeThm C13.GenOk C13.GenThm Gen.C13Gen.
 Open Scope string_scope.
 
 (* --- reported as pending, kept on the master --------------------------------------------------------------------------- *)
@@ -18,11 +18,11 @@ Proof. exact pending_reported_attr. Qed.
 Print Assumptions C13_pending_reported_attr.
 
 (* a value written while the slave is offline: "value" is pending, the cached value is the user's, both are persisted *)
-Theorem C13_pending_reported_value : forall id v m p,
+Theorem C13_pending_reported_value : forall c id v m p,
   find_port id (m_ports m) = Some p ->
-  exists p', find_port id (m_ports (write_value_offline id v m)) = Some p' /\
+  exists p', find_port id (m_ports (write_value_offline c id v m)) = Some p' /\
     In "value" (reported_pending_port p') /\ mp_cached_value p' = v /\
-    (exists sp, In sp (sv_ports (save (write_value_offline id v m))) /\ sv_id sp = id /\ sv_value sp = v /\ In "value" (sv_prov sp)).
+    (exists sp, In sp (sv_ports (save (write_value_offline c id v m))) /\ sv_id sp = id /\ sv_value sp = v /\ In "value" (sv_prov sp)).
 Proof. exact pending_reported_value. Qed.
 Print Assumptions C13_pending_reported_value.
 
@@ -96,6 +96,37 @@ Theorem C13_pushed_before_refresh_poll : forall flags dev ports m, NoDup (ids (m
   push_ok true (pending_items (poll_device cfg_src dev m)) (filter issued (snd (poll_reconnect cfg_src flags dev ports m))) = true.
 Proof. exact push_ok_poll_src. Qed.
 Print Assumptions C13_pushed_before_refresh_poll.
+
+(* --- over a whole offline episode ------------------------------------------------------------------------------------- *)
+(* whatever the slave reports and however many main-loop iterations run in between (any interleaving [steps] of offline edits,
+   remote events and ticks, starting with nothing pending): the LAST value the user gave to every item is what is pending at the
+   end -- device attributes, port attributes (of ports that exist), values (of ports that exist and are enabled).  Needs the
+   repaired offline write (the queue is emptied: History/C13Old.v C13_offline_write_keeps_queue_refuted); events that remove a
+   port, full-updates and edits of the attribute "enabled" are outside *)
+Theorem C13_episode_keeps_last_edits : forall steps m,
+  nothing_pending m ->
+  (forall e, In (ORemote e) steps -> forall id, keeps id e /\ stable id (SEv e)) ->
+  (forall id n v, In (OSetAttr id n v) steps -> slave_name n <> "enabled" /\ slave_name n <> "value") ->
+  forall it, In it (last_edits steps) ->
+  match it with
+  | IDevAttr n v => v <> VNone -> In it (pending_items (orun cfg_src steps m))
+  | IPortAttr id n v => v <> VNone -> (exists p, find_port id (m_ports m) = Some p) ->
+                        In it (pending_items (orun cfg_src steps m))
+  | IPortValue id v => v <> VNone -> (exists p, find_port id (m_ports m) = Some p /\ mp_enabled p = true) ->
+                       In it (pending_items (orun cfg_src steps m))
+  end.
+Proof. exact episode_keeps_last_edits_src. Qed.
+Print Assumptions C13_episode_keeps_last_edits.
+
+(* ... and each of them is then sent exactly once with that value *)
+Theorem C13_episode_pushed_once : forall flags steps m,
+  NoDup (ids (m_ports m)) ->
+  (forall e, In (ORemote e) steps -> forall id, keeps id e /\ stable id (SEv e)) ->
+  (forall id n v, In (OSetAttr id n v) steps -> slave_name n <> "enabled" /\ slave_name n <> "value") ->
+  let m' := orun cfg_src steps m in
+  pushed_once (pending_items m') (filter issued (snd (apply_provisioning cfg_src flags m'))) = true.
+Proof. exact episode_pushed_once_src. Qed.
+Print Assumptions C13_episode_pushed_once.
 
 (* --- afterwards nothing is pending -------------------------------------------------------------------------------------- *)
 Theorem C13_nothing_pending_after : forall c flags m,
